@@ -1,2 +1,89 @@
+(* C11 — lemmas: object path, no stream end without ZEnd, truncated / corrupt files are errors *)
+From Coq Require Import ZArith NArith Lia ZifyBool ZifyNat ZifyN List.
 From GixV.Base Require Import Bytes BytesFacts Outcome.
-From GixV.C11 Require Import Model.
+From GixV.C11 Require Import Model ProofsDec.
+Ltac Zify.zify_post_hook ::= Z.div_mod_to_equations.
+Local Open Scope N_scope.
+
+(* ---- hash_path --------------------------------------------------------------------------- *)
+
+Lemma L_hash_path id : length id = 20%nat ->
+  exists d f, hash_path id = Ok (d, f) /\ length d = 2%nat /\ length f = 38%nat /\
+              d ++ f = hex_encode id /\ d = hex_encode (firstn 1 id) /\ f = hex_encode (skipn 1 id).
+Proof.
+  intros Hl. unfold hash_path.
+  pose proof (hex_encode_length id) as HL. rewrite Hl in HL.
+  destruct (Nat.ltb_spec (length (hex_encode id)) 2) as [C|C]; [lia|].
+  exists (firstn 2 (hex_encode id)), (skipn 2 (hex_encode id)).
+  destruct id as [|b id]; [discriminate|].
+  split; [reflexivity|]. cbn [hex_encode firstn skipn].
+  pose proof (hex_encode_length id) as HL2. cbn [length] in Hl.
+  repeat split; try reflexivity. cbn [length] in *. lia.
+Qed.
+
+Section WithStore.
+  Variable H : bytes -> bytes.
+  Variable deflate : bytes -> bytes.
+  Hypothesis H_len : forall x, length (H x) = 20%nat.
+
+  Lemma L_store_write k declared data :
+    exists w, store_write H deflate k declared data = Ok w /\
+      w_id w = H (kind_bytes k ++ [x20] ++ N_to_dec declared ++ [x00] ++ data) /\
+      w_dir w ++ w_name w = hex_encode (w_id w) /\ length (w_dir w) = 2%nat /\ length (w_name w) = 38%nat /\
+      w_content w = deflate (loose_header k declared ++ data).
+  Proof.
+    unfold store_write, stored_stream.
+    destruct (L_hash_path (H (loose_header k declared ++ data)) (H_len _)) as (d & f & E & Ld & Lf & Eq & _).
+    rewrite E. cbn [obind]. eexists. split; [reflexivity|]. cbn [w_id w_dir w_name w_content].
+    repeat split; try assumption; try reflexivity.
+    unfold loose_header. rewrite <- !app_assoc. reflexivity.
+  Qed.
+End WithStore.
+
+(* ---- the decompressor never reports the end of a stream that has none --------------------- *)
+
+Lemma zcall_streamend zf st cap fl st' n :
+  zcall zf st cap fl = (st', n, RStreamEnd) -> z_end zf = ZEnd.
+Proof.
+  unfold zcall. intros E.
+  destruct (dead st); try discriminate E.
+  destruct (fin st && negb (is_finish fl))%bool; try discriminate E.
+  destruct (is_bad (z_end zf) && (len (z_out zf) <? DICT_SIZE))%bool; try discriminate E.
+  destruct (Nat.ltb cap (length (z_out zf) - pos st)); try discriminate E.
+  destruct (z_end zf); try reflexivity; try discriminate E.
+  destruct fl; [destruct (in_left st)|]; discriminate E.
+Qed.
+
+Section WithAlloc.
+  Variable alloc_ok : N -> bool.
+
+  (* if find_inner returns an object, the stream in the file ended properly *)
+  Lemma L_find_ok_needs_end zf r : find_inner alloc_ok zf = Ok r -> z_end zf = ZEnd.
+  Proof.
+    unfold find_inner. intros E.
+    destruct (zcall zf (zinit zf) HEADER_MAX_SIZE FNone) as [[st1 n] res] eqn:E1.
+    destruct res; try discriminate E.
+    - (* ROk: the second phase has to see the end *)
+      destruct (Nat.ltb _ _); try discriminate E.
+      destruct (decode_loose_header _) as [[[k size] hs]| | |]; try discriminate E.
+      cbn [obind] in E.
+      destruct (U64_MAX <? _); try discriminate E.
+      destruct (_ <? N.of_nat n); try discriminate E.
+      destruct (_ || _)%bool; try discriminate E.
+      destruct (Nat.ltb _ _); try discriminate E.
+      destruct (Nat.ltb _ n); try discriminate E.
+      destruct (read_loop _ _ _ _ _) as [[st2 num]| | |]; try discriminate E.
+      cbn [obind] in E.
+      destruct (negb _); try discriminate E.
+      destruct (zcall zf st2 0 FFinish) as [[st3 n3] res3] eqn:E3.
+      destruct res3; try discriminate E.
+      exact (zcall_streamend _ _ _ _ _ _ E3).
+    - exact (zcall_streamend _ _ _ _ _ _ E1).
+  Qed.
+
+  Lemma L_truncated_is_error zf r : z_end zf = ZMore -> find_inner alloc_ok zf <> Ok r.
+  Proof. intros Hm E. apply L_find_ok_needs_end in E. congruence. Qed.
+
+  Lemma L_corrupt_is_error zf r : z_end zf = ZBad -> find_inner alloc_ok zf <> Ok r.
+  Proof. intros Hm E. apply L_find_ok_needs_end in E. congruence. Qed.
+End WithAlloc.
